@@ -225,8 +225,60 @@ def rdd2_files():
     return files
 
 
+def util_files():
+    from cyecca import util
+    U = []
+
+    def symm(name, n):
+        """symmetric n x n SX from n(n+1)/2 symbols (lower triangle, column-major)"""
+        L = ca.SX.sym(name, ca.Sparsity.lower(n))
+        M = L + L.T
+        for i in range(n):
+            M[i, i] = L[i, i]
+        return L, M
+
+    # rk4 instances
+    def rk_cubic():
+        a = ca.SX.sym("a", 4); t = ca.SX.sym("t"); y = ca.SX.sym("y"); h = ca.SX.sym("h")
+        f = lambda tt, yy: a[0] + a[1] * tt + a[2] * tt ** 2 + a[3] * tt ** 3
+        return ca.Function("rk", [a, t, y, h], [util.rk4(f, t, y, h)], ["a", "t", "y", "h"], ["y1"])
+    def rk_lin():
+        lam = ca.SX.sym("lam"); t = ca.SX.sym("t"); y = ca.SX.sym("y"); h = ca.SX.sym("h")
+        return ca.Function("rk", [lam, t, y, h], [util.rk4(lambda tt, yy: lam * yy, t, y, h)], ["lam", "t", "y", "h"], ["y1"])
+    def rk_lin2():
+        A = ca.SX.sym("A", 2, 2); t = ca.SX.sym("t"); y = ca.SX.sym("y", 2); h = ca.SX.sym("h")
+        return ca.Function("rk", [A, t, y, h], [util.rk4(lambda tt, yy: A @ yy, t, y, h)], ["A", "t", "y", "h"], ["y1"])
+    def rk_gen():
+        # generic stages: f given by its four stage values is not expressible; use time-dependent affine field c0 + c1 t + k y
+        c = ca.SX.sym("c", 3); t = ca.SX.sym("t"); y = ca.SX.sym("y"); h = ca.SX.sym("h")
+        return ca.Function("rk", [c, t, y, h], [util.rk4(lambda tt, yy: c[0] + c[1] * tt + c[2] * yy, t, y, h)], ["c", "t", "y", "h"], ["y1"])
+    U += [("rk4_cubic", rk_cubic), ("rk4_lin", rk_lin), ("rk4_lin2", rk_lin2), ("rk4_affine", rk_gen)]
+    for n in range(1, 6):
+        def ldl(n=n):
+            L, P = symm("P", n)
+            Lm, D = util.ldl_symmetric_decomposition(P)
+            return ca.Function("ldl", [L], [dense(Lm), dense(D)], ["P"], ["L", "D"])
+        def udu(n=n):
+            L, P = symm("P", n)
+            Um, D = util.udu_symmetric_decomposition(P)
+            return ca.Function("udu", [L], [dense(Um), dense(D)], ["P"], ["U", "D"])
+        U += [("ldl_%d" % n, ldl), ("udu_%d" % n, udu)]
+    for n in range(1, 4):
+        def scp(n=n):
+            W = ca.SX.sym("W", ca.Sparsity.lower(n)); Fm = ca.SX.sym("F", n, n); Lq, Q = symm("Q", n)
+            return ca.Function("scp", [W, Fm, Lq], [dense(util.sqrt_covariance_predict(W, Fm, Q))], ["W", "F", "Q"], ["Wdot"])
+        U.append(("sqrt_cov_predict_%d" % n, scp))
+    for (n, m) in [(1, 1), (2, 1), (2, 2), (3, 1), (3, 2)]:
+        def sc(n=n, m=m):
+            Rs = ca.SX.sym("Rs", ca.Sparsity.lower(m)); Hm = ca.SX.sym("H", m, n); W = ca.SX.sym("W", ca.Sparsity.lower(n))
+            Wp, K, Ss = util.sqrt_correct(Rs, Hm, W)
+            return ca.Function("sc", [Rs, Hm, W], [dense(Wp), dense(K), dense(Ss)], ["Rs", "H", "W"], ["Wp", "K", "Ss"])
+        U.append(("sqrt_correct_%d_%d" % (n, m), sc))
+    return {"Util": U}
+
+
 def all_files():
     files = {}
-    for part in (lie_files, series_files, quadrotor_files, bezier_files, rdd2_files):
+    for part in (lie_files, series_files, quadrotor_files, bezier_files, rdd2_files, util_files):
         files.update(part())
     return files
